@@ -1,34 +1,26 @@
 import Swat4.Model.USys
 import Swat4.Lemmas.Prog
+import Swat4.Lemmas.Backed
+import Swat4.Lemmas.BackedSys
 /-!
 # C16 — No crash leaves a server waiting forever for a probe that does not exist
 
-`Backed`: every retry mark has a queued probe of that goal.  The use cases that set a mark
+`Backed` (`Lemmas/Backed.lean`): every retry mark has a queued probe of that goal.  The use cases that set a mark
 (`UC.report` → `maybeDiscoverPort`, `UC.addServer` → `discoverServer`, `UC.probeRetry`) enqueue first
 and mark second; a mark is cleared only by a probe outcome.
+
+A client death or a storage fault inside a repository call means, at the level of the use-case programs: the
+program stops before one of its calls or after it, or the call returns the storage error with or without having
+taken effect and the program continues on its error branch.  `Prog.runChoices cs p s now` is such a run: every
+prefix of every behaviour of `p`, with any mix of faults, is `runChoices cs` for some `cs`.  The theorems below
+say that `Backed` holds after **every** such run of every use case that writes the registry or the queue, except
+for the one mark whose probe the running prober itself holds (`BackedExcept`) — and that this exception is real
+(`C16_holder_counterexample`, the known finding).
 -/
 namespace Swat4.C16
 open Swat4 Swat4.UC Std
 
-/-- every stored server that carries the retry mark of a goal has a queued probe of that goal for its address -/
-def Backed (s : AbsState) : Prop :=
-  ∀ (k : Nat) (row : SRow) (g : Goal), s.servers[k]? = some row → Status.has row.svr.status (retryMark g) = true →
-    ∃ q ∈ s.queue, q.probe.addr = row.svr.addr ∧ q.probe.goal = g
-
-/-- executable version, used by the driver's oracle on dumps and here for the witness -/
-def backedB (s : AbsState) : Bool :=
-  s.servers.toList.all fun kv => [Goal.details, Goal.port].all fun g =>
-    !Status.has kv.2.svr.status (retryMark g) || s.queue.any fun q => q.probe.addr == kv.2.svr.addr && q.probe.goal == g
-
 /-- enqueueing never breaks backing -/
-theorem enqueue_servers (s : AbsState) (now : Int) (p : Probe) (after before : GoTime) :
-    (s.enqueue now p after before).servers = s.servers := by
-  cases after <;> cases before <;> simp only [AbsState.enqueue] <;> first | rfl | (split <;> rfl)
-
-theorem enqueue_queue_mono (s : AbsState) (now : Int) (p : Probe) (after before : GoTime) (q : QItem) (hq : q ∈ s.queue) :
-    q ∈ (s.enqueue now p after before).queue := by
-  cases after <;> cases before <;> simp only [AbsState.enqueue] <;> (try split) <;> simp [hq]
-
 theorem backed_enqueue (s : AbsState) (now : Int) (p : Probe) (after before : GoTime) (h : Backed s) :
     Backed (s.enqueue now p after before) := by
   intro k row g hrow hmark
@@ -79,5 +71,225 @@ theorem retry_order (prb : Probe) (svr : Server) (h : prb.retries < prb.maxRetri
   have : ¬ prb.retries ≥ prb.maxRetries := by omega
   simp only [this, if_false, Bool.not_true, Bool.false_eq_true]
   exact ⟨_, rfl⟩
+
+
+/-- **`runChoices` is the model's own small-step semantics**: one choice is one `Prog.step1` (the call succeeds)
+or one `Prog.stepFault` (it fails, without / with effect) of the interleaving model `USys`; an exhausted list is
+a client that died at that call boundary.  So the theorems below quantify over exactly the crash and fault
+placements the correspondence run injects. -/
+theorem runChoices_steps {α : Type} (p : Prog α) (s : AbsState) (now : Int) (cs : List Choice) :
+    p.runChoices [] s now = s ∧
+    p.runChoices (.ok :: cs) s now = (p.step1 s now).2.runChoices cs (p.step1 s now).1 now ∧
+    p.runChoices (.faultNoEffect :: cs) s now = (p.stepFault false s now).2.runChoices cs (p.stepFault false s now).1 now ∧
+    p.runChoices (.faultEffect :: cs) s now = (p.stepFault true s now).2.runChoices cs (p.stepFault true s now).1 now := by
+  cases p with
+  | ret a => refine ⟨rfl, ?_, ?_, ?_⟩ <;> (cases cs <;> rfl)
+  | call c k =>
+    refine ⟨rfl, rfl, ?_, ?_⟩
+    · simp only [Prog.runChoices, Prog.stepFault]
+      cases c.faultReply <;> rfl
+    · simp only [Prog.runChoices, Prog.stepFault]
+      cases c.faultReply <;> rfl
+
+/-! ## every crash point, every fault placement -/
+
+/-- **heartbeat-triggered discovery.**  From a backed, keyed store, `reportserver.Execute` leaves every retry mark
+backed wherever it stops (`cs` exhausted = the reporter died at that call boundary) and whichever of its calls
+fail, before or after taking effect. -/
+theorem report_backed (cs : List Choice) (zeroInfo : Fields) (maxRetries : Int) (req : ReportReq) (now : Int) (s : AbsState)
+    (hb : Backed s) (hk : Keyed s) : Backed (Prog.runChoices cs (UC.report zeroInfo maxRetries req) s now) :=
+  ((report_good (fun _ => True) zeroInfo maxRetries req trivial).backed cs s now hb hk).1
+
+/-- **REST submission** (`addserver.Execute`, after the repair: enqueue first, mark second): the same. -/
+theorem addServer_backed (cs : List Choice) (zeroInfo : Fields) (maxRetries : Int) (a : Addr) (now : Int) (s : AbsState)
+    (hb : Backed s) (hk : Keyed s) : Backed (Prog.runChoices cs (UC.addServer zeroInfo maxRetries a) s now) :=
+  ((addServer_good (fun _ => True) zeroInfo maxRetries a trivial).backed cs s now hb hk).1
+
+/-- **the prober, every outcome, every crash point, every fault placement.**  The prober holds the popped probe
+`prb`, so the store is backed except possibly for the mark `(prb.addr, prb.goal)`.  Whatever the outcome (success,
+retry with budget left, final failure) and wherever `probeserver.Execute` stops or fails, no *other* mark loses its
+backing.  `hcanon`: the record stored under the probe's key carries the probe's address (probes are made from
+stored records; without it the model's `Addr.key`, which is not injective on out-of-range ports, would let the
+retry mark land on a record with another address). -/
+theorem probe_backed (cs : List Choice) (prb : Probe) (outcome : Option ProbeResult) (now : Int) (s : AbsState)
+    (hb : BackedExcept s prb.addr prb.goal) (hk : Keyed s)
+    (hcanon : ∀ (row : SRow), s.servers[prb.addr.key]? = some row → row.svr.addr = prb.addr) :
+    BackedExcept (Prog.runChoices cs (UC.probe prb outcome) s now) prb.addr prb.goal :=
+  ((probe_good (fun _ => True) prb outcome (E := fun _ _ => False) (R := fun x => x = prb.addr) rfl).backedExcept
+    cs s now hb hk hcanon).1
+
+/-- the retry path on its own (`probeserver.retry`, entered with the record the lookup returned: it lives under
+the probe's key): the same, at every crash point and fault placement — the re-queue precedes the mark. -/
+theorem probeRetry_backed (cs : List Choice) (prb : Probe) (svr : Server) (t : Int) (now : Int) (s : AbsState)
+    (hb : BackedExcept s prb.addr prb.goal) (hk : Keyed s)
+    (hrow : s.servers[prb.addr.key]? = some ⟨svr, t⟩) (hcanon : svr.addr = prb.addr) :
+    BackedExcept (Prog.runChoices cs (UC.probeRetry prb svr) s now) prb.addr prb.goal := by
+  refine ((probeRetry_good (fun _ => True) prb svr (E := fun a g => a = svr.addr ∧ Marked svr g) (R := fun x => x = prb.addr)
+    hcanon rfl (by rw [hcanon]) (fun g hg => ⟨rfl, hg⟩)).runChoices_kinv (X := fun a' g' => a' = prb.addr ∧ g' = prb.goal)
+    cs s now ⟨hb, hk, ?_, ?_, fun _ _ _ => trivial, fun _ _ => trivial⟩).1
+  · rintro a g ⟨rfl, hm⟩
+    exact hb _ _ g hrow hm
+  · intro x hx row hr
+    subst hx
+    rw [hrow] at hr; cases hr; exact hcanon
+
+/-- **the holder ran to completion without a fault**: the store is fully `Backed` again, whatever the outcome —
+success and final failure clear the mark of the probe's goal, a retry is backed by the re-queued probe.  Together
+with `probe_backed` this makes the known finding precise: the only way the mark `(prb.addr, prb.goal)` is left
+unbacked is that its holder stopped early or took an error branch. -/
+theorem probe_complete_backed (prb : Probe) (outcome : Option ProbeResult) (now : Int) (s : AbsState)
+    (hb : BackedExcept s prb.addr prb.goal) (hk : Keyed s)
+    (hcanon : ∀ (row : SRow), s.servers[prb.addr.key]? = some row → row.svr.addr = prb.addr) :
+    Backed ((UC.probe prb outcome).run s now).1 ∧
+    ∀ n, 4 ≤ n → Backed (Prog.runChoices (List.replicate n Choice.ok) (UC.probe prb outcome) s now) := by
+  have h := probe_run_backed prb outcome s now hb hk hcanon
+  refine ⟨h, fun n hn => ?_⟩
+  rw [runChoices_all_ok _ _ _ _ (Nat.le_trans (probe_runSteps_le prb outcome s now) hn)]
+  exact h
+
+/-- a fault-free choice list that covers the whole run is the sequential run (`Prog.run`) -/
+theorem runChoices_ok_eq_run {α : Type} (p : Prog α) (s : AbsState) (now : Int) (n : Nat) (hn : p.runSteps s now ≤ n) :
+    p.runChoices (List.replicate n Choice.ok) s now = (p.run s now).1 :=
+  runChoices_all_ok p s now n hn
+
+/-- **refresh and revival** only enqueue: `Backed` is preserved at every crash point, under every fault placement. -/
+theorem refresh_revive_backed (cs : List Choice) (now : Int) (s : AbsState) (hb : Backed s) (hk : Keyed s) :
+    (∀ (maxRetries deadline : Int), Backed (Prog.runChoices cs (UC.refresh maxRetries deadline) s now)) ∧
+    (∀ (maxRetries minScope maxScope minCountdown maxCountdown deadline : Int) (draws : Nat → Int),
+      Backed (Prog.runChoices cs (UC.revive maxRetries minScope maxScope minCountdown maxCountdown deadline draws) s now)) :=
+  ⟨fun maxRetries deadline => ((refresh_good (fun _ => True) maxRetries deadline).backed cs s now hb hk).1,
+   fun maxRetries minScope maxScope minCountdown maxCountdown deadline draws =>
+    ((revive_good (fun _ => True) maxRetries minScope maxScope minCountdown maxCountdown deadline draws).backed cs s now hb hk).1⟩
+
+/-- **keepalive and removal**: a keepalive rewrites the refresh time only (status untouched), a removed server has
+no marks: `Backed` is preserved at every crash point, under every fault placement. -/
+theorem renew_remove_backed (cs : List Choice) (now : Int) (s : AbsState) (hb : Backed s) (hk : Keyed s) :
+    (∀ (instanceId srcIp : Nat), Backed (Prog.runChoices cs (UC.renew instanceId srcIp) s now)) ∧
+    (∀ (instanceId : Nat) (a : Addr), Backed (Prog.runChoices cs (UC.remove instanceId a) s now)) :=
+  ⟨fun instanceId srcIp => ((renew_good (fun _ => True) instanceId srcIp).backed cs s now hb hk).1,
+   fun instanceId a => ((remove_good (fun _ => True) instanceId a).backed cs s now hb hk).1⟩
+
+/-- **`Keyed` is an invariant** of all these runs (every row stays under its own address key), so the theorems
+above compose along any sequence of use-case executions, each with its own crash point and faults. -/
+theorem keyed_preserved (cs : List Choice) (now : Int) (s : AbsState) (hk : Keyed s) :
+    (∀ zeroInfo maxRetries req, Keyed (Prog.runChoices cs (UC.report zeroInfo maxRetries req) s now)) ∧
+    (∀ zeroInfo maxRetries a, Keyed (Prog.runChoices cs (UC.addServer zeroInfo maxRetries a) s now)) ∧
+    (∀ prb outcome, (∀ (row : SRow), s.servers[prb.addr.key]? = some row → row.svr.addr = prb.addr) →
+      Keyed (Prog.runChoices cs (UC.probe prb outcome) s now)) ∧
+    (∀ maxRetries deadline, Keyed (Prog.runChoices cs (UC.refresh maxRetries deadline) s now)) ∧
+    (∀ maxRetries minScope maxScope minCountdown maxCountdown deadline draws,
+      Keyed (Prog.runChoices cs (UC.revive maxRetries minScope maxScope minCountdown maxCountdown deadline draws) s now)) ∧
+    (∀ instanceId srcIp, Keyed (Prog.runChoices cs (UC.renew instanceId srcIp) s now)) ∧
+    (∀ instanceId a, Keyed (Prog.runChoices cs (UC.remove instanceId a) s now)) := by
+  -- `Keyed` does not depend on the queue: run the framework with everything excepted
+  have key : ∀ {α : Type} {p : Prog α} {R : Addr → Prop}, Good (fun _ => True) (fun _ _ => False) R p →
+      (∀ a, R a → ∀ (row : SRow), s.servers[a.key]? = some row → row.svr.addr = a) → Keyed (p.runChoices cs s now) :=
+    fun hp hR => (hp.runChoices_kinv (X := fun _ _ => True) cs s now
+      ⟨fun _ _ _ _ _ => Or.inl trivial, hk, fun _ _ hf => hf.elim, hR, fun _ _ _ => trivial, fun _ _ => trivial⟩).2
+  refine ⟨fun z m r => key (report_good _ z m r trivial) (fun _ hf => hf.elim),
+    fun z m a => key (addServer_good _ z m a trivial) (fun _ hf => hf.elim),
+    fun prb outcome hc => key (probe_good _ prb outcome (R := fun x => x = prb.addr) rfl) (fun a ha row hr => by subst ha; exact hc row hr),
+    fun m d => key (refresh_good _ m d (R := fun _ => False)) (fun _ hf => hf.elim),
+    fun m a b c d e f => key (revive_good _ m a b c d e f (R := fun _ => False)) (fun _ hf => hf.elim),
+    fun i sip => key (renew_good _ i sip (R := fun _ => False)) (fun _ hf => hf.elim),
+    fun i a => key (remove_good _ i a (R := fun _ => False)) (fun _ hf => hf.elim)⟩
+
+/-- the executable oracle decides `Backed` -/
+theorem backedB_correct (s : AbsState) : backedB s = true ↔ Backed s := backedB_iff s
+
+/-- **the known finding, proved** (holder loss).  `W.state`: server A carries `port_retry`, the queue is empty — the
+only port probe for A has been popped and is held by the prober; everything else is in order (`BackedExcept`,
+`Keyed`).  If the holder `UC.probe ⟨A, …, port, 0, 2⟩ none` (a failed probe with retry budget) stops before its
+first call, after the lookup, or after the clock read, or if its lookup or its re-enqueue fails without effect,
+the mark is left with no probe: `Backed` is false.  Run to completion — or even when the re-enqueue took
+effect and only its reply was lost — it re-queues the probe and the state is `Backed`. -/
+theorem C16_holder_counterexample :
+    BackedExcept W.state W.A .port ∧ Keyed W.state ∧ W.state.queue = [] ∧
+    ¬ Backed (Prog.runChoices [] (UC.probe W.probe none) W.state 5) ∧
+    ¬ Backed (Prog.runChoices [.ok] (UC.probe W.probe none) W.state 5) ∧
+    ¬ Backed (Prog.runChoices [.ok, .ok] (UC.probe W.probe none) W.state 5) ∧
+    ¬ Backed (Prog.runChoices [.faultNoEffect] (UC.probe W.probe none) W.state 5) ∧
+    ¬ Backed (Prog.runChoices [.ok, .ok, .faultNoEffect] (UC.probe W.probe none) W.state 5) ∧
+    Backed (Prog.runChoices [.ok, .ok, .faultEffect] (UC.probe W.probe none) W.state 5) ∧
+    Backed (Prog.runChoices [.ok, .ok, .ok] (UC.probe W.probe none) W.state 5) ∧
+    Backed (Prog.runChoices [.ok, .ok, .ok, .ok] (UC.probe W.probe none) W.state 5) := by
+  refine ⟨W.state_backedExcept, W.state_keyed, rfl, ?_, ?_, ?_, ?_, ?_, ?_, ?_, ?_⟩ <;>
+    first
+    | (rw [← backedB_iff, Bool.not_eq_true]; decide)
+    | (rw [← backedB_iff]; decide)
+
+/-- the positive counterpart through the general theorem: the witness satisfies the hypotheses of
+`probe_complete_backed` (they are not vacuous) and the completed run is `Backed` for every outcome -/
+theorem C16_holder_completes (outcome : Option ProbeResult) (now : Int) :
+    Backed ((UC.probe W.probe outcome).run W.state now).1 :=
+  (probe_complete_backed W.probe outcome now W.state W.state_backedExcept W.state_keyed W.state_canon).1
+
+
+/-! ## interleaved -/
+
+/-- **C16 for every system without a popper.**  Clients are any programs of the reporter (heartbeat, keepalive,
+removal), the REST submission, the refresher, the reviver, the cleaners and the listing (`Client`: the use cases
+above, possibly after a clock read and followed by a rendering of the result), with valid addresses; the store
+starts backed, with every row under its own key and valid (`KeyedOk`).  Then after **any** event list — clients
+taking turns call by call, dying before or after their pending call took effect, calls failing with or without
+effect, clock ticks — every retry mark has a queued probe.  The proof rests on the monotonicity fact stated as the
+third conjunct: in such a system the queue only grows, so whatever a client enqueued before marking is still
+queued when its mark commits, however long the others ran in between.  (With a popper in the system this is
+false: `C16_holder_counterexample`, and the consumed-before-mark finding of the correspondence run.) -/
+theorem C16_interleaved (u : USys) (es : List UEv) (hb : Backed u.abs) (hk : KeyedOk u.abs)
+    (hc : ∀ c ∈ u.clients, Client c.prog) :
+    Backed (u.run es).abs ∧ KeyedOk (u.run es).abs ∧ ∀ q ∈ u.abs.queue, q ∈ (u.run es).abs.queue :=
+  sys_backed u es hb hk hc
+
+/-- non-vacuity: the empty store is backed and well keyed; the system model's reporter / submission clients are `Client`s -/
+example : Backed {} ∧ KeyedOk {} := ⟨fun k row g h => by simp at h, fun k row h => by simp at h⟩
+example (z : Fields) (m : Int) (req : ReportReq) (h : req.addr.PortOk) :
+    Client ((UC.report z m req).bind fun r => pure (match r with | .ok _ => "ok" | .error _ => "err")) :=
+  Client.map _ _ (Client.report z m req h)
+example (m iv : Int) : Client (Prog.call Call.now fun now => (UC.refresh m (now + iv)).bind fun r => pure (match r with | .ok _ => "ok" | .error _ => "err")) :=
+  Client.now _ (fun _ => Client.map _ _ (Client.refresh _ _))
+
+
+/-! ## the hypotheses are needed; a third way to lose the backing -/
+
+/-- **why `hcanon` / valid addresses are assumed** (a model artifact: `Addr.key` is injective only on ports
+1..65535, the real key `Addr.String()` is injective and `addr.New` rejects other ports).  (1) A fault-free,
+complete `probeserver` run for a probe whose address is *not* the one stored under its key breaks a fully backed,
+keyed store: the re-queued probe carries the probe's address, the mark lands on the stored record.  (2) In a
+popper-free system started from the empty store, one reporter with an out-of-range address that collides with a
+valid one is enough to break `Backed` by interleaving alone. -/
+theorem address_hypotheses_needed :
+    (Backed W.badState ∧ Keyed W.badState ∧
+      ¬ Backed ((UC.probe ⟨W.goodA, 5, .port, 0, 2⟩ none).run W.badState 5).1) ∧
+    (W.badA.key = W.goodA.key ∧ ¬ W.badA.PortOk ∧ W.goodA.PortOk ∧
+      Backed (W.collisionSys.run (W.collisionEvents.take 10)).abs ∧
+      ¬ Backed (W.collisionSys.run W.collisionEvents).abs) := by
+  refine ⟨⟨?_, ?_, ?_⟩, by decide, by unfold Addr.PortOk; decide, by unfold Addr.PortOk; decide, ?_, ?_⟩
+  · rw [← backedB_iff]; decide
+  · intro k row h
+    simp only [W.badState, ExtTreeMap.getElem?_insert] at h
+    split at h
+    · rename_i hk
+      cases h
+      simpa using hk
+    · simp at h
+  · rw [← backedB_iff, Bool.not_eq_true]; decide
+  · rw [← backedB_iff]; decide
+  · rw [← backedB_iff, Bool.not_eq_true]; decide
+
+/-- **a race that needs no crash and no fault** (not one of the two recorded findings; it needs a popper *and* a
+removal between a reporter's lookup and its write, so the popper-free theorem above is not affected).  A is marked
+`port_retry` and its probe is queued.  A reporter looks A up; a cleaner removes A; a prober pops A's probe, finds
+no server and drops the probe; the reporter's `Add` then stores its stale copy — mark included — as a new row
+(`servers.Add` saves the caller's record when the row is absent) and, seeing the mark, does not enqueue.  All
+three clients have finished, the queue is empty, the mark has no probe. -/
+theorem stale_readd_unbacked :
+    Backed W.staleSys.abs ∧
+    (W.staleSys.run W.staleEvents).clients.map UClient.live = [false, false, false] ∧
+    (W.staleSys.run W.staleEvents).abs.queue = [] ∧
+    ¬ Backed (W.staleSys.run W.staleEvents).abs := by
+  refine ⟨?_, by decide, by decide, ?_⟩
+  · rw [← backedB_iff]; decide
+  · rw [← backedB_iff, Bool.not_eq_true]; decide
 
 end Swat4.C16
